@@ -319,3 +319,22 @@ func vh_get_routing_key() {
 	vAssert(k4 == nil && e4 == nil, "C09/query-routing-key/none-before-binding-values-exist")
 	vObserve("e1", e1 == nil)
 }
+
+// RandomPartitioner token strings (0 .. 2^127-1 in decimal) at the machine-word boundaries: each
+// sample is concrete (big.Int.SetString cannot be run on symbolic text), parsed by the driver, printed
+// back, and compared with every other sample.
+var vRandomTokenSamples = []string{
+	"0", "9", "4294967295", "4294967296", "9223372036854775807", "9223372036854775808", "9999999999999999999",
+	"10000000000000000000", "18446744073709551615", "18446744073709551616", "99999999999999999999",
+	"170141183460469231731687303715884105727",
+}
+
+func vh_random_parse() {
+	p := randomPartitioner{}
+	i := vChoose("sample", len(vRandomTokenSamples))
+	j := vChoose("other", len(vRandomTokenSamples))
+	a, b := p.ParseString(vRandomTokenSamples[i]), p.ParseString(vRandomTokenSamples[j])
+	vAssert(a.String() == vRandomTokenSamples[i], "C09/random/parse-prints-back-the-same-decimal")
+	// the samples are listed in increasing numeric order
+	vAssert(a.Less(b) == (i < j), "C09/random/parse-order-is-numeric-order")
+}
